@@ -97,3 +97,5 @@ package cte
 //@ structural cte-writer-calls: only_callers (io.Writer).Write in cte: cte.(*Writer).writeBytes
 //@ structural cte-stringwriter-calls: only_callers (io.StringWriter).WriteString in cte: cte.(*Writer).WriteStringNotLF cte.(*Writer).WriteStringPossibleLF
 //@ structural cte-reader-calls: only_callers (io.Reader).Read in cte:
+//@ structural cte-bigint-ops: callees cte@cte.(*Writer)|cte.(*EncoderEventReceiver)|cte.(*EncoderContext)|cte.(*arrayEncoderEngine)|cte.(*topLevelDecorator)|cte.(*Marshaler) into math/big: (*Float).IsInf (*Float).Sign (*Float).Float64 (*Float).Append (*Int).Append
+//@ structural cte-apd-ops: callees cte@cte.(*Writer)|cte.(*EncoderEventReceiver)|cte.(*EncoderContext)|cte.(*Marshaler) into github.com/cockroachdb/apd/v2: (*Decimal).Sign (*Decimal).Append
